@@ -257,6 +257,12 @@ func (fa facts) apply(info *types.Info, e Event) bool {
 				if v := absValue(info, e.Rhs[i]); v != "" && !isVolatile(k) {
 					fa[k] = v
 				}
+				// x = x[:0]  ⇒  len(x) == 0
+				if se, ok := ast.Unparen(e.Rhs[i]).(*ast.SliceExpr); ok && se.Low == nil && se.High != nil && !isVolatile(k) {
+					if n, isC := ConstInt(info, se.High); isC && n == 0 {
+						fa["cond:len("+k+") == 0"] = "const:true"
+					}
+				}
 				// fields of a composite literal with constant values
 				rh := ast.Unparen(e.Rhs[i])
 				if u, ok := rh.(*ast.UnaryExpr); ok && u.Op == token.AND {
@@ -463,7 +469,12 @@ func (fa facts) assumeCond(info *types.Info, cond ast.Expr, truth bool) bool {
 				k, v = chainKey(x.Y), absValue(info, x.X)
 			}
 			if k == "" || v == "" || v == "nonnil" {
-				return true
+				if x.Op == token.EQL {
+					return fa.memo(cond, truth)
+				}
+				// a != b is remembered as the negation of a == b
+				eq := &ast.BinaryExpr{X: x.X, Op: token.EQL, Y: x.Y}
+				return fa.memo(eq, !truth)
 			}
 			return fa.assume(k, v, (x.Op == token.EQL) == truth)
 		}
